@@ -1989,6 +1989,9 @@ def run(ctx: Ctx, st: Optional[LeanStatus]) -> Result:
         "every frame sequence over the %s up to length %d, alone and behind a connection_ack, each paired with a rotating "
         "configuration / init payload / variables choice; a {init} x {variables} x {configuration} product on 5 fixed scripts; seeded random "
         "sequences of length 4..12 over %d frame variants; every case on the plain client, the OT client without and with a tracer. "
+        "Plus REAL generated packages (2 fixed with the shadowing variable names + seeded random ones: variables named query/variables/"
+        "response/data, underscored and plain names, snake-casing on/off, plain and OT base client), every generated subscription method "
+        "driven with all / only required / mixed arguments on two scripts. "
         "A case is non-trivial when the handshake completes and at least one frame reaches the streaming loop; distinct = distinct "
         "(configuration, variables, frame list)."
         % ((("10-letter alphabet (length 5) and the 16-letter variant alphabet (length 3)", 5) if ctx.thorough
@@ -1996,6 +1999,7 @@ def run(ctx: Ctx, st: Optional[LeanStatus]) -> Result:
     )
     res.extra["exhaustive_sequences"] = len(ex)
     res.oracle_only += [
+        "generated method: that payload.query PARSES to the authored operation + its fragments, and that each yielded item equals Ret.model_validate(data) (pydantic, C01) are oracle-only; the model takes the emitted operation string, parameter list and variables dict (ArgumentsGenerator, C03) as inputs and decides which names/values reach execute_ws",
         "the real handshake (websockets.connect against an in-process websockets.serve on 127.0.0.1): oracle only; the model's connect is abstract",
         "pydantic's model_dump(by_alias=True, exclude_unset=True) is an input of the model (PV.model carries the dump); the oracle states the expected dump from the field/alias table",
         "OpenTelemetry spans (names, attributes) are not part of the compared trace",
